@@ -47,7 +47,7 @@ CHECKS = {
     "C07": {"level": MC, "runs": [{"binary": E1_POOL, "flavour": "hooked"}, {"binary": E1_POOL, "flavour": "asan", "args": ["--max-bound", "2"]}]},
     "C08": {"level": MC, "runs": [{"binary": E1_POOL, "flavour": "hooked"}]},
     "C15": {"level": MC, "runs": [{"binary": E1_RACE, "flavour": "tsan"}]},
-    "C20": {"level": MC, "runs": [{"binary": E1_THREAD, "flavour": "hooked"}, {"binary": E1_THREAD, "flavour": "asan"}]},
+    "C20": {"level": MC, "runs": [{"binary": E1_THREAD, "flavour": "hooked"}, {"binary": E1_THREAD, "flavour": "asan"}, {"binary": E1_THREAD, "flavour": "tsan"}]},
     "C11": {"level": MC, "runs": [{"binary": E1_ROUTER, "flavour": "hooked"}, {"binary": E1_ROUTER, "flavour": "asan", "args": ["--max-bound", "1"]}]},
     "C12": {"level": MC, "runs": [{"binary": E1_RESOURCE, "flavour": "hooked"}]},
 }
